@@ -192,7 +192,7 @@ def selftest_main(seed, which=None):
                 shutil.copytree(os.path.join(driver.REPO, sub), os.path.join(scratch, sub))
             a = subprocess.run(["true"], capture_output=True, text=True)
             b = subprocess.run(["patch", "-p1", "-s", "-f", "--dry-run", "-d", scratch, "-i", os.path.join(d, "patch.diff")], capture_output=True, text=True)
-            if b.returncode == 0:
+            if b.returncode == 0 and not meta.get("evaluate_on_base"):
                 b = subprocess.run(["patch", "-p1", "-s", "-f", "-d", scratch, "-i", os.path.join(d, "patch.diff")], capture_output=True, text=True)
             else:
                 for sub in ("lib", "include", "util"):
